@@ -153,19 +153,24 @@ func (u *multiUpdateExecutor) afterImage(ctx context.Context, beforeImages []*ty
 		return nil, err
 	}
 
+	// the statements matched no row: nothing changed, there is no key to select by
+	if len(beforeImage.Rows) == 0 {
+		return []*types.RecordImage{{TableName: metaData.TableName, SQLType: u.parserCtx.SQLType}}, nil
+	}
+
 	// use
 	selectSQL, selectArgs := u.buildAfterImageSQL(beforeImage, *metaData)
 
 	rows, err = u.rowsPrepare(ctx, selectSQL, selectArgs)
+	if err != nil {
+		return nil, err
+	}
 	defer func() {
 		if err := rows.Close(); err != nil {
 			log.Errorf("rows close fail, err:%v", err)
 			return
 		}
 	}()
-	if err != nil {
-		return nil, err
-	}
 
 	image, err := u.buildRecordImages(rows, metaData, types.SQLTypeUpdate)
 	if err != nil {
